@@ -25,7 +25,7 @@ Local Arguments Z.of_nat : simpl never.
 Definition rv_err_ok (lines : list Z) (e : perr) : Prop :=
   match e with
   | PMemAddr _ => True
-  | PMemSize _ => False
+  | PMemSize _ => True          (* the data segment would extend past the address space *)
   | PSyntax ln | PLabel ln | POdd ln | PDupLabel ln | PDirective ln | PDataSyntax ln
   | PDataDup ln | PVariable ln | PUncaught ln => In ln lines
   end.
@@ -204,7 +204,7 @@ Proof.
 Qed.
 
 Definition data_err (lines : list Z) (e : perr) : Prop :=
-  (exists x, e = PMemAddr x) \/
+  (exists x, e = PMemAddr x \/ e = PMemSize x) \/
   exists ln, In ln lines /\ (e = PDataDup ln \/ e = PSyntax ln \/ e = PDataSyntax ln).
 
 Lemma write_data_err data : forall m a vars e, write_data data m a vars = PErr e ->
@@ -213,35 +213,45 @@ Proof.
   unfold data_err.
   induction data as [|[ln l] t IH]; intros m a vars e H; cbn [write_data] in H; [discriminate|].
   assert (Here: forall e0, (e0 = PDataDup ln \/ e0 = PSyntax ln \/ e0 = PDataSyntax ln) ->
-            (exists x, e0 = PMemAddr x) \/
+            (exists x, e0 = PMemAddr x \/ e0 = PMemSize x) \/
             exists ln0, In ln0 (map fst ((ln, l) :: t)) /\
                         (e0 = PDataDup ln0 \/ e0 = PSyntax ln0 \/ e0 = PDataSyntax ln0)).
   { intros e0 He. right. exists ln. split; [left; reflexivity | exact He]. }
   assert (Rest: forall m1 a1 v1, write_data t m1 a1 v1 = PErr e ->
-            (exists x, e = PMemAddr x) \/
+            (exists x, e = PMemAddr x \/ e = PMemSize x) \/
             exists ln0, In ln0 (map fst ((ln, l) :: t)) /\
                         (e = PDataDup ln0 \/ e = PSyntax ln0 \/ e = PDataSyntax ln0)).
   { intros m1 a1 v1 Hr. destruct (IH _ _ _ _ Hr) as [Hm|(ln0 & Hin & He)]; [left; exact Hm|].
     right. exists ln0. split; [right; exact Hin | exact He]. }
+  assert (Addr: forall e0, (exists x, e0 = PMemAddr x) ->
+            (exists x, e0 = PMemAddr x \/ e0 = PMemSize x) \/
+            exists ln0, In ln0 (map fst ((ln, l) :: t)) /\
+                        (e0 = PDataDup ln0 \/ e0 = PSyntax ln0 \/ e0 = PDataSyntax ln0)).
+  { intros e0 [x Hx]. left. exists x. left. exact Hx. }
+  assert (Size: forall w,
+            (exists x, PMemSize w = PMemAddr x \/ PMemSize w = PMemSize x) \/
+            exists ln0, In ln0 (map fst ((ln, l) :: t)) /\
+                        (PMemSize w = PDataDup ln0 \/ PMemSize w = PSyntax ln0 \/ PMemSize w = PDataSyntax ln0)).
+  { intros w. left. exists w. right. reflexivity. }
   cbv zeta in H.
   destruct l as [d|name ty vals|name s|name v|name|il b];
     try (injection H as <-; apply Here; right; right; reflexivity).
   - destruct (var_lookup vars name); [injection H as <-; apply Here; left; reflexivity|].
     destruct (if ty =? 0 then (8, 1) else if ty =? 1 then (16, 2) else (32, 4)) as [nbits stride].
     destruct (write_vals m nbits stride (align4 a) vals ln) as [[m' a']|e'] eqn:Ew.
-    + eapply Rest; exact H.
+    + destruct (a' >? data_limit); [injection H as <-; apply Size | eapply Rest; exact H].
     + injection H as <-. destruct (write_vals_err _ _ _ _ _ _ _ Ew) as [[-> _]|Hm].
       * apply Here. right; left; reflexivity.
-      * left; exact Hm.
+      * apply Addr; exact Hm.
   - destruct (var_lookup vars name); [injection H as <-; apply Here; left; reflexivity|].
     destruct (write_chars m (align4 a) (strip_quotes s)) as [[m' a']|e'] eqn:Ew.
     + destruct (dwrite m' 8 a' 0) as [m''|e''] eqn:Ed.
-      * eapply Rest; exact H.
-      * injection H as <-. left. eapply dwrite_err; exact Ed.
-    + injection H as <-. left. eapply write_chars_err; exact Ew.
+      * destruct (a' + 1 >? data_limit); [injection H as <-; apply Size | eapply Rest; exact H].
+      * injection H as <-. apply Addr. eapply dwrite_err; exact Ed.
+    + injection H as <-. apply Addr. eapply write_chars_err; exact Ew.
   - destruct (var_lookup vars name); [injection H as <-; apply Here; left; reflexivity|].
     destruct (py_int10 v) as [n|].
-    + eapply Rest; exact H.
+    + destruct (align4 a + 4 * n >? data_limit); [injection H as <-; apply Size | eapply Rest; exact H].
     + injection H as <-. apply Here. right; left; reflexivity.
 Qed.
 
@@ -605,7 +615,8 @@ Proof.
   assert (L1: forall ln, In ln (map fst text1) -> In ln (map fst toks)).
   { intros ln Hin. rewrite Hl1 in Hin. apply (incl_lines _ _ Ht). exact Hin. }
   destruct (write_data data m 16384 []) as [[m' vars]|e1] eqn:Ew; cbn [pbind] in H.
-  2:{ injection H as <-. destruct (write_data_err _ _ _ _ _ Ew) as [[x ->]|(ln & Hin & He)].
+  2:{ injection H as <-. destruct (write_data_err _ _ _ _ _ Ew) as [[x [->| ->]]|(ln & Hin & He)].
+      { split; [exact Logic.I | intros _ l; discriminate]. }
       { split; [exact Logic.I | intros _ l; discriminate]. }
       assert (Hin': In ln (map fst toks)) by (apply (incl_lines _ _ Hd); exact Hin).
       destruct He as [->|[->| ->]]; (split; [exact Hin' | intros _ l; discriminate]). }
